@@ -194,6 +194,16 @@ def run(ctx):
             res.check(has_bool(cb, c.bb, "T", r"is_ignore_errors_set\("), "R1.3", "get_matches_with|defaults-on-error|" + c.callee_q.rsplit("::", 1)[1], c.where(),
                       "env/defaults are added after a parse error only under ignore_errors", "env/defaults added after an error without the ignore_errors test")
 
+    # ---------------- R1.1c the audit tables carry no unused line: an unused line would silently absorb a NEW panic site with the same key
+    allb = [b for c in fx.crates.values() for b in c.bodies] if ctx.tier == "thorough" and ctx.config == "full" else []
+    ginv = panics.inventory(fx, allb) if allb else []
+    from collections import Counter as _C
+    for tsv in (("panic.tsv", "c16.tsv", "c18.tsv") if allb else ()):
+        ga = panics.load_audit(os.path.join(os.path.dirname(AUDIT), tsv))
+        gu = _C(s_.audit_key() for s_ in ginv if not s_.discharge)
+        for k, (n_, why) in ga.items():
+            if gu[k] < n_:
+                res.floor("R1.1", "sites matching audit line `%s` of %s (remove or lower the stale line)" % (k, tsv), gu[k], n_)
     # ---------------- R1.1b checked lemma behind the flat_map audit entries (shared with C12)
     import lemmas
     lemmas.flat_map_lockstep(fx, res, "R1.1")
